@@ -11,7 +11,7 @@ COQ_EXTRA = ["theories/Model/ConvertCases.vo", "theories/Gen/SchemaS.vo", "theor
 IMPORTS = ["Model.Schema", "Model.Convert", "Model.ConvertCases", "Gen.SchemaGen", "Gen.SchemaS"]
 PARTIAL = ["the generic theorems are the structural half (placement: from_etree = construct o denote, per-attribute field_rel); from_etree_places_typed_values instantiates them with the "
            "CONCRETE converters (C10's convert, C09's dt_convert / tm_convert): each attribute holds typed_value_of its child's text, and rendered_datetime_value composes C09's "
-           "dt_convert_denotes (any rendering of a calendar-valid date-time gets the denoted instant); entities_decoded / entity_text_held_decoded prove the entity clause for every text of ampersand-free stretches and tokens over the regenerated table; the denotation of the other types (decimal separators, tokens) "
+           "dt_convert_denotes (any rendering of a calendar-valid date-time gets the denoted instant); entities_decoded / entity_text_held_decoded prove the entity clause for every text of ampersand-free stretches and tokens over the regenerated table; comma_decimal_same_value proves the separator clause (Decimal refuses every text with a comma, so a comma text gets the outcome of the point text); the denotation of the remaining types (tokens) "
            "is stated in C10's obligations and, here, the real converters are compared on the whole lexical space with an independent implementation of the OFX type rules (python "
            "oracle); the typed model is run on every generated document (TFromM cases: no converter table)",
            "offsets strictly between GMT-1 and GMT are left to C09 (recorded/fixed there)"]
